@@ -727,6 +727,78 @@ def _option_pass(d, f, fn_by_path, children, force, summary=None):
     return n
 
 
+FN_TRAITS = {"std::ops::Fn": "call", "std::ops::FnMut": "call_mut", "std::ops::FnOnce": "call_once"}
+
+
+def _closure_source(d, f, l, depth=0):
+    """The local holding the closure aggregate that local `l` is (a copy / move of, or a reference to),
+    or None.  Only single-definition temporaries are followed."""
+    if l is None or depth > 6:
+        return None
+    if d["types"][f["locals"][l][0]].get("k") == "closure":
+        return l
+    defs = [st for b in f["blocks"] for st in b["st"] if st["k"] == "A" and st["p"][0] == l]
+    calls = [b for b in f["blocks"] if b["term"]["k"] == "call" and b["term"]["dest"][0] == l]
+    if len(defs) != 1 or calls or defs[0]["p"][1]:
+        return None
+    r = defs[0]["r"]
+    if r["k"] == "use":
+        p = r["o"].get("m") or r["o"].get("c")
+        if p is not None and (not p[1] or p[1] == ["*"]):
+            return _closure_source(d, f, p[0], depth + 1)
+    if r["k"] == "ref" and (not r["p"][1] or r["p"][1] == ["*"]):
+        return _closure_source(d, f, r["p"][0], depth + 1)
+    return None
+
+
+def direct_closure_calls(d, f, fn_by_path):
+    """`Fn::call(&c, (a, b))` / `FnMut::call_mut` / `FnOnce::call_once` on a closure created in the same
+    body (what is left of a helper taking `impl Fn..` once the helper is inlined into its caller): call
+    the closure body directly and inline it.  Returns the closure paths inlined."""
+    out = []
+    for _ in range(24):
+        site = None
+        for bi, b in enumerate(f["blocks"]):
+            t = b["term"]
+            if b["cleanup"] or t["k"] != "call" or "f" not in t or b.get("direct_tried"):
+                continue
+            cf = t["f"]
+            if FN_TRAITS.get(cf.get("trait")) != cf.get("name") or cf.get("local") or len(t["args"]) != 2:
+                continue
+            cl = _closure_source(d, f, _plain_local(t["args"][0]))
+            tl = _plain_local(t["args"][1])
+            if cl is None or tl is None:
+                continue
+            tup = [st for st in b["st"] if st["k"] == "A" and st["p"] == [tl, []] and st["r"]["k"] == "agg" and st["r"].get("agg") == "tuple"]
+            c = fn_by_path.get(d["types"][f["locals"][cl][0]].get("def"))
+            if len(tup) != 1 or c is None or c["argc"] != len(tup[0]["r"]["fields"]) + 1:
+                continue
+            site = (bi, cl, tup[0]["r"]["fields"], c)
+            break
+        if site is None or len(f["blocks"]) > MAX_BLOCKS:
+            break
+        bi, cl, fields, c = site
+        b = f["blocks"][bi]
+        t = b["term"]
+        cx = _Ctx(d, f)
+        CR = cx.local()
+        by_ref = d["types"][c["locals"][1][0]].get("k") == "ref"
+        line = t.get("s")
+        if by_ref:
+            b["st"].append({"k": "A", "p": [CR, []], "r": {"k": "ref", "mut": bool(d["types"][c["locals"][1][0]].get("mut")), "p": [cl, []]}, "s": line})
+        else:
+            b["st"].append({"k": "A", "p": [CR, []], "r": {"k": "use", "o": {"m": [cl, []]}}, "s": line})
+        b["term"] = {"k": "call", "f": {"path": c["path"], "name": c["name"], "local": True, "krate": c.get("krate"), "substs": [], "closure": c["path"]},
+                     "args": [{"m": [CR, []]}] + list(fields), "dest": t["dest"], "t": t.get("t"), "u": t.get("u"), "s": line, "fs": t.get("fs", line)}
+        b["direct_tried"] = True
+        try:
+            inline_call(f, bi, copy.deepcopy(c), d["types"])
+            out.append(c["path"])
+        except Exception:
+            pass
+    return out
+
+
 def apply(d):
     summary = {"chains": 0, "loops": 0, "closures_inlined": [], "skipped": []}
     fn_by_path = {}
@@ -738,6 +810,18 @@ def apply(d):
             children.setdefault(f["parent"], []).append(f)
     # closures first (longer paths), so that a chain nested in a closure is a loop before the closure is inlined
     order = sorted(d["fns"], key=lambda f: -f["path"].count("::"))
+    # closures handed to a helper that was inlined are called where they were written
+    for f in order:
+        if f.get("inlined") and f.get("local", True) and not f.get("derived"):
+            try:
+                inl = direct_closure_calls(d, f, fn_by_path)
+            except Exception as e:
+                summary["skipped"].append("%s: %s" % (f["path"], e))
+                continue
+            if inl:
+                f.setdefault("inlined", []).extend(inl)
+                f.setdefault("desugared_closures", []).extend(inl)
+                summary["closures_inlined"].extend(inl)
     for f in order:
         if f.get("derived") or not f.get("local", True):
             continue
